@@ -35,7 +35,7 @@ def coq_sts(plant, inp):
 
 class P(Prop):
     ID = "C01"
-    THEOREMS = ["C01_balance", "C01_bus_is_connected_group", "C01_pointwise"]
+    THEOREMS = ["C01_balance", "C01_unique_fraction", "C01_bus_is_connected_group", "C01_pointwise"]
     MAKE_TARGETS = ["theories/Props/C01.vo", "theories/Check/Check_C01.vo"]
     CHECK_REQUIRE = ("From Coq Require Import QArith List Bool.\n"
                      "From Feems Require Import Base.Num Model.Bus Model.ElecBalance Check.Check_C01.\nOpen Scope Q_scope.")
